@@ -2153,15 +2153,11 @@ class PseudoNetCDFFile(PseudoNetCDFSelfReg, object):
             olddims = v.dimensions
             newdims = tuple(
                 [dk for dk in v.dimensions if dk not in removed_dims])
-            sdims = tuple([(di, dk) for di, dk in enumerate(
-                olddims) if dk not in newdims])[::-1]
+            sidx = tuple([slice(None) if dk in newdims else 0
+                          for dk in olddims])
             propd = dict([(pk, getattr(v, pk)) for pk in v.ncattrs()])
             ov = outf.createVariable(vk, v.dtype.char, newdims, **propd)
-            outvals = v[...]
-            for di, dk in sdims:
-                outvals = outvals.take(0, axis=di)
-
-            ov[...] = outvals[...]
+            ov[...] = v[...][sidx]
         return outf
 
     def __repr__(self):
